@@ -1302,6 +1302,17 @@ class Generator:
             dst = rng.randrange(NSLOTS)
             if dst != slot:
                 ks = [k for k in keys if rng.random() < 0.6] or keys[:1]
+                # selections may name an atom more than once and in any order; a third of them are padded
+                # with repeats up to the size of the whole molecule while still leaving atoms out
+                r2 = rng.random()
+                if r2 < 0.3 and len(ks) < len(keys):
+                    while len(ks) < len(keys):
+                        ks.insert(rng.randrange(len(ks) + 1), rng.choice(ks))
+                elif r2 < 0.45:
+                    for _ in range(rng.randint(1, 2)):
+                        ks.insert(rng.randrange(len(ks) + 1), rng.choice(ks))
+                elif r2 < 0.55:
+                    rng.shuffle(ks)
                 self.emit(['subgraph', slot, dst, ks])
                 self.models[dst] = m.subgraph(ks)
         elif r < 0.90 and len(slots) > 1:
